@@ -12,9 +12,12 @@ from common import run_harness, run_model, qenc, Reader
 TOL = Fraction(1, 10 ** 9)
 
 
-def spec_input(sec_rows, init, at):
-    """integer list for the model's spec entry point, from the rows the
-    implementation itself reports (its parsed quantities, its denied amounts)"""
+def spec_input(sec_rows, init, at, case_rows=None):
+    """integer list for the model's spec entry point.  Quantities of the input
+    rows are taken from the CASE (what the CSV says: shares, price, commission,
+    each with its own currency's rate), not from what the implementation parsed;
+    generated rows (SfLA) and the denied amounts come from the implementation's
+    report."""
     out = [2]
     if init is not None:
         out += [1] + qenc(init[0]) + qenc(init[1])
@@ -23,8 +26,20 @@ def spec_input(sec_rows, init, at):
     out.append(len(sec_rows))
     for d in sec_rows:
         q = [Fraction(x) if isinstance(x, str) else x for x in (d.get("q") or [])]
-        out += [0, 0, d["sd"], d["af"], int(bool(d["reg"])), 0, 0, 0]
         a = d["act"]
+        src = None
+        if case_rows is not None and d.get("ri") is not None and d["ri"] < len(case_rows) and a != "SfLA":
+            src = case_rows[d["ri"]]
+            if src["act"] != a:
+                src = None
+        if src is not None and a in ("Buy", "Sell"):
+            rate = core.eff_rate(src.get("cur"), src.get("rate"))
+            crate = core.eff_rate(src.get("ccur"), src.get("crate")) if (src.get("ccur") or src.get("crate") is not None) else rate
+            com = src["com"][1] if src.get("com") is not None else Fraction(0)
+            q = [src["sh"][1], src["aps"][1], com, rate, crate]
+        elif src is not None and a == "RoC":
+            q = [src["aps"][1], core.eff_rate(src.get("cur"), src.get("rate"))]
+        out += [0, 0, d["sd"], d["af"], int(bool(d["reg"])), 0, 0, 0]
         if a == "Buy":
             out += [0] + sum((qenc(x) for x in q[:5]), [])
         elif a == "Sell":
@@ -96,7 +111,7 @@ def check_cases(res, ctx, cases, label):
                     sname = [n for n, v in e[1].items() if v == s][0]
                     init = c.get("inits", {}).get(sname)
                     init = (init[0][1], init[1][1]) if init else None
-                    spec_jobs.append((k, s, so["deltas"], spec_input(so["deltas"], init, e[2])))
+                    spec_jobs.append((k, s, so["deltas"], spec_input(so["deltas"], init, e[2], c["rows"])))
                 else:
                     stats["rejected_securities"] += 1
     spec_out = run_model([j[3] for j in spec_jobs])
